@@ -135,6 +135,10 @@ def regenerate():
     extract.main()
 
 
+def builds(tier):
+    return ["dev"] if tier == "quick" else ["dev", "release"]
+
+
 def generate(r, tier, build):
     return []
 
